@@ -30,9 +30,9 @@ CHECKS = {
  "C12": ("exploration", "generated page trees (spines up to the documented depth limit with random sub-trees, empty nodes, Kids behind references, shuffled numbering) compared with an own recursive depth-first traversal; malformed variants run in an isolated worker process and must terminate and yield only page objects",
          "trusted: the harness's own DFS; the worker's process-level observations (exit status, panic hook, counting allocator, watchdog)",
          "property-based testing (proptest) against a reference traversal; totality observed from an isolated worker process"),
- "C13": ("exploration", "typed-chaos documents (plausible skeleton overwritten by random-kind values and cyclic/dangling references under every key the query code reads); every public read-only query is called for every object id inside an isolated worker with an 8 MiB stack, allocation limits and a watchdog; the oracle is totality",
+ "C13": ("exploration", "typed-chaos documents (plausible skeleton overwritten by random-kind values and cyclic/dangling references under every key the query code reads); every public read-only query is called for every object id inside an isolated worker with an 8 MiB stack, allocation limits and a watchdog; the oracle is totality; thorough tier adds a coverage-guided libFuzzer campaign over raw file bytes (load, then every query) whose artefacts are confirmed in the worker",
          "trusted: the worker's process-level observations; hang verdicts need confirmation alone with a 60 s budget",
-         "property-based testing (proptest) with a totality oracle observed from an isolated worker process"),
+         "property-based testing (proptest) with a totality oracle observed from an isolated worker process; cargo-fuzz/libFuzzer in the thorough tier"),
  "C04": ("exploration", "structure-aware mutants of valid files from three independent producers and grammar-directed adversarial constructions for all eight byte-level entry points, evaluated in an isolated worker process that observes panics (overflow checks on), aborts, stack overflows on an 8 MiB stack, allocation requests unrelated to the input size and confirmed hangs; thorough tier adds coverage-guided libFuzzer campaigns",
          "trusted: the worker's process-level observations (exit status, panic hook, counting allocator with the stated thresholds, watchdog with confirmation run)",
          "structure-aware mutation fuzzing driven by proptest plus grammar-based generators; process-isolated totality oracle; cargo-fuzz/libFuzzer in the thorough tier"),
